@@ -145,7 +145,7 @@ fn on_step(rec: &StepRec, t: &mut Tally) {
 }
 
 pub fn judge(_part: &str, case: &Case, tally: &mut Tally) -> Verdict {
-    let v = spec_judge(case, &SpecOpts { own: Class::Cursor, scrollback: false }, tally, &mut on_step);
+    let v = spec_judge(case, &SpecOpts { own: Class::Cursor, scrollback: true }, tally, &mut on_step);
     if v != Verdict::Pass {
         return v;
     }
